@@ -1,6 +1,7 @@
 ---------------------------- MODULE SaveCrashObserve ----------------------------
 (* C18: records of a save killed at every system call (and torn writes): the definition holds the complete
-   old or the complete new text; when the save was not interrupted it holds the new one. *)
+   old or the complete new text; when the save was not interrupted it holds the new one; and a further save by
+   another process stores exactly its text, whatever the killed save left behind. *)
 EXTENDS Integers, Sequences, TLC, Json
 CONSTANT TraceFile
 Trace == ndJsonDeserialize(TraceFile)
@@ -9,6 +10,8 @@ R == Trace[l]
 Clauses(r) == (IF r.content \notin {r.old, r.new} THEN {"C18_SaveLeftPartialText"} ELSE {})
               \cup (IF ~r.killed /\ r.content # r.new THEN {"C18_SaveNotStored"} ELSE {})
               \cup (IF r.otherChanged THEN {"C18_OtherDagTouched"} ELSE {})
+              \* the next save, by another process, on whatever the killed one left (DagStore.tla NextSave)
+              \cup (IF r.contentAfterNext # r.next THEN {"C18_SaveAfterKilledSaveNotStored"} ELSE {})
 Init == l = 1 /\ bad = 0
 Next == /\ l <= Len(Trace) /\ l' = l + 1
         /\ LET c == Clauses(R) IN IF c = {} THEN UNCHANGED bad
